@@ -88,7 +88,7 @@ class C03(Config):
               "Local Open Scope N_scope.")
     bin = "c03"
     release_too = False
-    n_tags = 70
+    n_tags = 75
     classes = {}
     shard_size = 250
     rule = ("generated transactions for every BranchId x admissible TxVersion (crate strategies plus forced edge shapes), "
@@ -100,16 +100,17 @@ class C03(Config):
         "vlib/srcgen.py + vlib/props/c03.py extractors (tx versions, version group ids, branch ids and Orchard revisions, MAX_COMPACT_SIZE, MAX_MONEY, proof sizes)",
         "harness/wallet/src/bin/c03.rs: generators, printers, catch_unwind wrappers, sha2 double-SHA-256, and the per-case table of opaque blobs rejected by the primitive decoders (jubjub, bls12_381, pasta_curves, redjubjub, reddsa/orchard)",
         "validity of opaque 32-byte blobs (curve points, field elements, verification keys) is an oracle: Section variable in the theorems, harness table in the correspondence",
+        "coq/C03/Sha256.v (Gallina SHA-256 over Uint63; FIPS vectors) and coq/C03/HexLit.v (word literals) are used only by the generated case files, no theorem depends on them",
     ]
     assumptions = ["usize is 64 bits (the harness target)",
                    "external crates orchard 0.15.3 (Flags::from_byte, Bundle::try_from_parts, Action::from_parts, Proof::expected_proof_size), sapling-crypto 0.7.0 and zcash_encoding 0.4.0 are re-modelled from their vendored sources and covered by the correspondence only"]
     partial_clauses = [
         "validity of opaque blobs (curve points, field elements, verification keys) is an oracle: a Section variable in the theorems, a per-case table filled from the primitive decoders in the correspondence",
-        "txid / authorising-data commitment of v5+ transactions are compared on the implementation side only (parsed vs generated, parsed vs re-parsed); their definition belongs to C04",
-        "SHA-256 is not modelled: txid (v1-v4) and block hash = SHA-256d(serialisation) are checked by the harness with the sha2 crate",
-        "no-panic for the implementation rests on the correspondence (no panic observed); C03_dec_total is about the model, which has no partial operation",
-        "the consensus branch id handed to Transaction::read for v1-v4 is not on the wire and is not modelled; zip-233 / nu7 cfg branches are not built and not modelled",
-        "the largest arb_tx samples (> 9 kB encoded) are checked against the property in the harness only, not evaluated by the Coq model",
+        "txid / authorising-data commitment of v5+ transactions are compared on the implementation side only (parsed vs generated, parsed vs re-parsed, slice reader vs short-read readers); their definition belongs to C04",
+        "the theorems are generic in the identifier hash H; the case files instantiate it with a Gallina SHA-256d over primitive 63-bit integers that is not verified, only pinned by the FIPS 180-4 vectors and by agreement with every v1-v4 txid and block hash the implementation computed",
+        "no-panic for the implementation rests on the correspondence (no panic observed through any reader kind); C03_dec_total is about the model, which has no partial operation",
+        "the bridge theorem covers transaction and block-header cases; the origin label of a case (generated / must-reject) is admitted by wf_case only when the model confirms it; CompactSize / Vector / Optional cases are checked by run_case and prop_case separately",
+        "zip-233 / nu7 cfg branches are not built and not modelled",
     ]
 
     @staticmethod
